@@ -622,7 +622,7 @@ def _denominators(t, acc):
             _denominators(c, acc)
 
 
-def _solve_algebraic(facts, goal, timeout_s=20):
+def _solve_algebraic(facts, goal, timeout_s=40):
     """decide an equality between rational expressions by reduction modulo the polynomial
     equalities among the facts (sqrt definitions ...): sound when every denominator is
     non-zero under the facts, which is checked with z3.  Returns True (proved) or None."""
